@@ -301,7 +301,7 @@ func c40Tx(r *kit.Run, rules *genesis.Rules, decls [][]chainfx.KeyDecl, shortSpo
 		// StateKeys and Units on separate transactions (StateKeys caches)
 		ks, err := mk().StateKeys(bh)
 		if anyShort && err == nil {
-			r.Violation("C40/short-key-declared-statekeys", c, "Transaction.StateKeys accepted a declaration with a key shorter than two bytes: %v", ks)
+			r.Violation("C40/short-key-declared-statekeys", c, "Transaction.StateKeys accepted a declaration with a key shorter than two bytes (%d keys returned)", len(ks))
 		}
 		if !anyShort && err != nil {
 			r.Violation("C40/valid-keys-statekeys-error", c, "Transaction.StateKeys failed on valid keys: %v", err)
